@@ -198,7 +198,15 @@ func (n *nativeRunner) stubgen(replace map[string]string) error {
 		}
 		nameEnd := fset.Position(decl.Name.End()).Offset
 		edits[file] = append(edits[file], edit{nameEnd, "__orig"})
-		sig := string(src[fset.Position(decl.Pos()).Offset:fset.Position(decl.Body.Lbrace).Offset])
+		sigStart := fset.Position(decl.Pos()).Offset
+		sigBytes := append([]byte{}, src[sigStart:fset.Position(decl.Body.Lbrace).Offset]...)
+		// blank / unnamed parameters get generated names in the trampoline
+		type ren struct {
+			off int
+			n   int
+			txt string
+		}
+		var rens []ren
 		var args []string
 		if decl.Recv != nil {
 			if len(decl.Recv.List) != 1 || len(decl.Recv.List[0].Names) != 1 || decl.Recv.List[0].Names[0].Name == "_" {
@@ -206,21 +214,29 @@ func (n *nativeRunner) stubgen(replace map[string]string) error {
 			}
 			args = append(args, decl.Recv.List[0].Names[0].Name)
 		}
+		pi := 0
 		for _, f := range decl.Type.Params.List {
 			if len(f.Names) == 0 {
 				return fmt.Errorf("stubgen: %s has unnamed parameters", target)
 			}
 			for _, nm := range f.Names {
-				if nm.Name == "_" {
-					return fmt.Errorf("stubgen: %s has a blank parameter", target)
-				}
 				a := nm.Name
+				if a == "_" {
+					a = fmt.Sprintf("zzp%d", pi)
+					rens = append(rens, ren{fset.Position(nm.Pos()).Offset - sigStart, 1, a})
+				}
+				pi++
 				if _, ok := f.Type.(*ast.Ellipsis); ok {
 					a += "..."
 				}
 				args = append(args, a)
 			}
 		}
+		sort.Slice(rens, func(i, j int) bool { return rens[i].off > rens[j].off })
+		for _, r := range rens {
+			sigBytes = append(sigBytes[:r.off], append([]byte(r.txt), sigBytes[r.off+r.n:]...)...)
+		}
+		sig := string(sigBytes)
 		ret := "return "
 		if decl.Type.Results == nil || len(decl.Type.Results.List) == 0 {
 			ret = ""
@@ -229,7 +245,19 @@ func (n *nativeRunner) stubgen(replace map[string]string) error {
 		if stub.Pkg != tf.Pkg && tf.Pkg != nil {
 			return fmt.Errorf("stubgen: stub %s must live in the package of its target %s", stub, target)
 		}
-		appendix[file] = append(appendix[file], fmt.Sprintf("\n// generated by stubgen: %s is replaced by the harness stub\n%s{ %s%s(%s) }\n", target, sig, ret, stubRef, strings.Join(args, ", ")))
+		guard := ""
+		if g := n.p.Guards[target]; g != nil {
+			orig := decl.Name.Name + "__orig(" + strings.Join(args, ", ") + ")"
+			if decl.Recv != nil {
+				orig = args[0] + "." + decl.Name.Name + "__orig(" + strings.Join(args[1:], ", ") + ")"
+			}
+			if ret == "" {
+				guard = fmt.Sprintf("if !%s() { %s; return }; ", g.Name(), orig)
+			} else {
+				guard = fmt.Sprintf("if !%s() { return %s }; ", g.Name(), orig)
+			}
+		}
+		appendix[file] = append(appendix[file], fmt.Sprintf("\n// generated by stubgen: %s is replaced by the harness stub\n%s{ %s%s%s(%s) }\n", target, sig, guard, ret, stubRef, strings.Join(args, ", ")))
 	}
 	for file, es := range edits {
 		src, _ := os.ReadFile(file)
